@@ -1,6 +1,6 @@
 (* oracle/pattern/driver.ml — runs cases through the extracted pattern models.
    Glue only: parse line -> call extracted functions -> print.
-   input : <id> <pattern hex> <subject hex> <init dec, 0-based> <repl hex> <maxn dec> <budget dec> <mode>
+   input : <id> <pattern hex> <subject hex> <init dec, 0-based> <repl hex> <maxn: A | i<signed hex> | f<float>> <budget dec> <mode>
            mode: a = everything, p = pattern API only (no Lua-level drivers)
    output: <id> B=.. MS=.. MM=.. SS=.. SM=.. BRP=.. F=im|s M=im|s GM=im|s GS=im|s|flags *)
 open Model
@@ -39,7 +39,7 @@ let build_str = function
 
 let caps_str l = String.concat "," (List.map (fun (a, b) -> Printf.sprintf "%d:%d" (int_of_z a) (int_of_z b)) l)
 let api_str (r : apires) =
-  (match r.a_res with MCaps l -> "c" ^ caps_str l | MNil -> "nil" | MFuel -> "fuel")
+  (match r.a_res with MCaps l -> "c" ^ caps_str l | MNil -> "nil" | MFuel -> "fuel" | MPanic -> "panic")
   ^ "/" ^ string_of_int (int_of_z r.a_used) ^ "/" ^ (if r.a_panicked then "1" else "0")
 let spec_str = function Some l -> "c" ^ caps_str l | None -> "nil"
 
@@ -64,7 +64,17 @@ let () =
     match split_on ' ' line with
     | [id; ph; sh; init; rh; maxn; bud; mode] ->
       let ptn = zbytes ph and s = zbytes sh and repl = zbytes rh in
-      let init = z_of_int (int_of_string init) and maxn = z_of_int (int_of_string maxn) in
+      let init = z_of_int (int_of_string init) in
+      (* 4th argument of gsub: absent, integer, or float (a float with an integer value is that
+         integer; any other float is an argument error on both sides, printed as such) *)
+      let tail = String.sub maxn 1 (String.length maxn - 1) in
+      let argerr = ref false in
+      let maxn : z option =
+        match maxn.[0] with
+        | 'A' -> None
+        | 'i' -> Some (z_of_hex tail)
+        | _ -> let x = float_of_string tail in
+               if Float.is_integer x then Some (z_of_int (int_of_float x)) else (argerr := true; None) in
       let b = z_of_int (int_of_string bud) in
       let br = build ptn in
       let buf = Buffer.create 256 in
@@ -85,6 +95,7 @@ let () =
            add "M" (dres_str (fst (match_im p fuel s Z0 init)) ^ "|" ^ dres_str (match_s p s init));
            let (l, fin) = gmatch_im p fuel s Z0 init in
            add "GM" (seq_str l (dres_str fin) ^ "|" ^ seq_str (gmatch_s p s init) "nil");
+           if !argerr then add "GS" "Enot_integer|Enot_integer|" else
            let (r, sk) = gsub_im p fuel s Z0 repl maxn in
            add "GS" (dres_str r ^ "|" ^ dres_str (gsub_s p s repl maxn) ^ "|"
                      ^ (if sk then "k" else ""))
